@@ -10,6 +10,7 @@ use deno_ast::swc::ast::Expr;
 use deno_ast::swc::ast::ExprOrSpread;
 use deno_ast::swc::ecma_visit::noop_visit_type;
 use deno_ast::swc::ecma_visit::Visit;
+use deno_ast::swc::ecma_visit::VisitWith;
 use deno_ast::SourceRange;
 use deno_ast::SourceRangedForSpanned;
 
@@ -119,6 +120,8 @@ impl Visit for NoInvalidRegexpVisitor<'_, '_> {
     if let deno_ast::swc::ast::Callee::Expr(expr) = &call_expr.callee {
       self.handle_call_or_new_expr(expr, &call_expr.args, call_expr.range());
     }
+    // the callee and the arguments may contain regular expressions, too
+    call_expr.visit_children_with(self);
   }
 
   fn visit_new_expr(&mut self, new_expr: &deno_ast::swc::ast::NewExpr) {
@@ -129,6 +132,8 @@ impl Visit for NoInvalidRegexpVisitor<'_, '_> {
         new_expr.range(),
       );
     }
+    // the callee and the arguments may contain regular expressions, too
+    new_expr.visit_children_with(self);
   }
 }
 
